@@ -7,8 +7,8 @@
    (From/To/sourceText), addSep/parseSep/parseSpacesInner, and every node
    parser reachable from parse.Parse: Chunk, Pipeline, Form, Redir, Compound
    (+tilde), Indexing, Array, Primary (all forms), MapPair, Sep.
-   The faithful model keeps Redir's [From := Left.From] while the source text
-   is taken from the position after Left (DESIGN section 7 item 4).
+   Redir moves [From] to [Left.From]; the wrapper takes the source text from
+   the node's final From (the repaired behaviour, checks/C01.fixes).
 
    Not modelled: Primary.Value (the unquoted string; C03 covers quoting), the
    error message texts (an error carries a code = index in the list of error
@@ -246,9 +246,10 @@ Definition parseSep (b : nb) (ps : pst) (sep : rune) : bool * nb * pst :=
   if Z.eqb (peek ps) sep then let ps1 := adv ps in (true, addSep b ps1, ps1)
   else (false, b, ps).
 
-(* the generic parse wrapper's epilogue: To = pos, sourceText = src[begin:pos] *)
-Definition finish (k attr : N) (b : nb) (begin : nat) (ps : pst) : tree :=
-  T k attr (nb_from b) (pos ps) (slice src begin (pos ps)) (rev (nb_ch b)).
+(* the generic parse wrapper's epilogue: To = pos, sourceText = src[From:pos]
+   with the node's final From *)
+Definition finish (k attr : N) (b : nb) (ps : pst) : tree :=
+  T k attr (nb_from b) (pos ps) (slice src (nb_from b) (pos ps)) (rev (nb_ch b)).
 
 Notation "'do' x <- e ; f" := (match e with Some x => f | None => None end)
   (at level 200, x pattern, e at level 100, f at level 200, only parsing).
@@ -438,7 +439,7 @@ Definition chunk_body (ps : pst) : option (tree * pst) :=
   let begin := pos ps in
   do (b1, ps1, _) <- parseSeps (mkNb begin []) ps;
   do (b2, ps2) <- cChunkLoop c b1 ps1;
-  Some (finish KChunk 0 b2 begin ps2, ps2).
+  Some (finish KChunk 0 b2 ps2, ps2).
 
 Definition chunkLoop_body (b : nb) (ps : pst) : option (nb * pst) :=
   if startsPipeline (peek ps) then
@@ -452,14 +453,14 @@ Definition pipeline_body (ps : pst) : option (tree * pst) :=
   let begin := pos ps in
   do (t, ps1) <- cForm c ps;
   do (b2, ps2, ok) <- cPipelineLoop c (push t (mkNb begin [])) ps1;
-  if negb ok then Some (finish KPipeline 0 b2 begin ps2, ps2) else
+  if negb ok then Some (finish KPipeline 0 b2 ps2, ps2) else
   do (b3, ps3) <- parseSpaces b2 ps2;
   if peek ps3 =? 38 then
     let ps4 := adv ps3 in
     let b4 := addSep b3 ps4 in
     do (b5, ps5) <- parseSpaces b4 ps4;
-    Some (finish KPipeline 1 b5 begin ps5, ps5)
-  else Some (finish KPipeline 0 b3 begin ps3, ps3).
+    Some (finish KPipeline 1 b5 ps5, ps5)
+  else Some (finish KPipeline 0 b3 ps3, ps3).
 
 (* the bool is false when the loop returned from Pipeline.parse early *)
 Definition pipelineLoop_body (b : nb) (ps : pst) : option (nb * pst * bool) :=
@@ -475,7 +476,7 @@ Definition form_body (ps : pst) : option (tree * pst) :=
   do (t, ps1) <- cCompound c CmdExpr ps;
   do (b2, ps2) <- parseSpaces (push t (mkNb begin [])) ps1;
   do (b3, ps3) <- cFormLoop c b2 ps2;
-  Some (finish KForm 0 b3 begin ps3, ps3).
+  Some (finish KForm 0 b3 ps3, ps3).
 
 Definition formLoop_body (b : nb) (ps : pst) : option (nb * pst) :=
   let r := peek ps in
@@ -504,9 +505,8 @@ Definition formLoop_body (b : nb) (ps : pst) : option (nb * pst) :=
   else Some (b, ps).
 
 (* Redir = { Compound } { '<'|'>'|'<>'|'>>' } { Space } ( '&'? Compound ).
-   [begin] is the position after Left (the wrapper ran after Left was parsed)
-   while From is moved to Left.From: sourceText = src[begin:pos] does not cover
-   Left. *)
+   [begin] is the position after Left (the wrapper ran after Left was parsed);
+   From is moved to Left.From. *)
 Definition redir_body (left : option tree) (ps : pst) : option (tree * pst) :=
   let begin := pos ps in
   let b0 := match left with
@@ -530,7 +530,7 @@ Definition redir_body (left : option tree) (ps : pst) : option (tree * pst) :=
              | [] => error (if isfd then errShouldBeFD else errShouldBeFilename) ps5
              | _ => ps5
              end in
-  Some (finish KRedir (mode + (if isfd then 8 else 0))%N b4 begin ps6, ps6).
+  Some (finish KRedir (mode + (if isfd then 8 else 0))%N b4 ps6, ps6).
 
 (* Compound = { Indexing }, with the tilde special case *)
 Definition compound_body (ctx : N) (ps : pst) : option (tree * pst) :=
@@ -544,7 +544,7 @@ Definition compound_body (ctx : N) (ps : pst) : option (tree * pst) :=
       (push i b0, ps1)
     else (b0, ps) in
   do (b2, ps2) <- cCompoundLoop c ctx b1 ps1;
-  Some (finish KCompound ctx b2 begin ps2, ps2).
+  Some (finish KCompound ctx b2 ps2, ps2).
 
 Definition compoundLoop_body (ctx : N) (b : nb) (ps : pst) : option (nb * pst) :=
   if startsIndexing (peek ps) ctx then
@@ -557,7 +557,7 @@ Definition indexing_body (ctx : N) (ps : pst) : option (tree * pst) :=
   let begin := pos ps in
   do (t, ps1) <- cPrimary c ctx ps;
   do (b2, ps2) <- cIndexingLoop c (push t (mkNb begin [])) ps1;
-  Some (finish KIndexing ctx b2 begin ps2, ps2).
+  Some (finish KIndexing ctx b2 ps2, ps2).
 
 Definition indexingLoop_body (b : nb) (ps : pst) : option (nb * pst) :=
   let '(ok, b1, ps1) := parseSep b ps 91 in
@@ -574,7 +574,7 @@ Definition array_body (ps : pst) : option (tree * pst) :=
   let begin := pos ps in
   do (b1, ps1) <- parseSpacesAndNewlines (mkNb begin []) ps;
   do (b2, ps2) <- cArrayLoop c b1 ps1;
-  Some (finish KArray 0 b2 begin ps2, ps2).
+  Some (finish KArray 0 b2 ps2, ps2).
 
 Definition arrayLoop_body (b : nb) (ps : pst) : option (nb * pst) :=
   if startsCompound (peek ps) NormalExpr then
@@ -634,7 +634,7 @@ Definition expectSep (b : nb) (ps : pst) (sep : rune) (code : N) : nb * pst :=
 Definition primary_body (ctx : N) (ps : pst) : option (tree * pst) :=
   let begin := pos ps in
   let b0 := mkNb begin [] in
-  let leaf (ty : N) (ps' : pst) := Some (finish KPrimary ty b0 begin ps', ps') in
+  let leaf (ty : N) (ps' : pst) := Some (finish KPrimary ty b0 ps', ps') in
   let r := peek ps in
   if negb (startsPrimary r ctx) then leaf PBad (error errShouldBePrimary ps)
   else if allowedInBareword r ctx then
@@ -654,7 +654,7 @@ Definition primary_body (ctx : N) (ps : pst) : option (tree * pst) :=
       let b1 := addSep b0 ps1 in
       do (t, ps2) <- cChunk c ps1;
       let '(b3, ps3) := expectSep (push t b1) ps2 41 errShouldBeRParen in
-      Some (finish KPrimary PExceptionCapture b3 begin ps3, ps3)
+      Some (finish KPrimary PExceptionCapture b3 ps3, ps3)
     else
       (* questionWildcard *)
       let ps1 := if peek ps =? 63 then adv ps else ps in leaf PWildcard ps1
@@ -663,7 +663,7 @@ Definition primary_body (ctx : N) (ps : pst) : option (tree * pst) :=
     let '(_, b1, ps1) := parseSep b0 ps 40 in
     do (t, ps2) <- cChunk c ps1;
     let '(b3, ps3) := expectSep (push t b1) ps2 41 errShouldBeRParen in
-    Some (finish KPrimary POutputCapture b3 begin ps3, ps3)
+    Some (finish KPrimary POutputCapture b3 ps3, ps3)
   else if r =? 91 then
     (* lbracket *)
     let '(_, b1, ps1) := parseSep b0 ps 91 in
@@ -673,8 +673,8 @@ Definition primary_body (ctx : N) (ps : pst) : option (tree * pst) :=
     let '(b4, ps4) := expectSep b3 ps3 93 errShouldBeRBracket in
     if lone || hasP then
       let ps5 := if hasE : bool then error errBothElementsAndPairs ps4 else ps4 in
-      Some (finish KPrimary PMap b4 begin ps5, ps5)
-    else Some (finish KPrimary PList b4 begin ps4, ps4)
+      Some (finish KPrimary PMap b4 ps5, ps5)
+    else Some (finish KPrimary PList b4 ps4, ps4)
   else if r =? 123 then
     (* lbrace *)
     let '(_, b1, ps1) := parseSep b0 ps 123 in
@@ -691,13 +691,13 @@ Definition primary_body (ctx : N) (ps : pst) : option (tree * pst) :=
          else Some (b3, ps3));
       do (t, ps7) <- cChunk c ps6;
       let '(b8, ps8) := expectSep (push t b6) ps7 125 errShouldBeRBrace in
-      Some (finish KPrimary PLambda b8 begin ps8, ps8)
+      Some (finish KPrimary PLambda b8 ps8, ps8)
     else
       (* braced *)
       do (t, ps2) <- cCompound c BracedElemExpr ps1;
       do (b3, ps3) <- cBracedLoop c (push t b1) ps2;
       let '(b4, ps4) := expectSep b3 ps3 125 errShouldBeBraceSepOrRBracket in
-      Some (finish KPrimary PBraced b4 begin ps4, ps4)
+      Some (finish KPrimary PBraced b4 ps4, ps4)
   else leaf PBareword ps.   (* "Parse an empty bareword" *)
 
 (* MapPair = '&' { Space } Compound { Space } Compound *)
@@ -711,8 +711,8 @@ Definition mapPair_body (ps : pst) : option (tree * pst) :=
   if eq : bool then
     do (b5, ps5) <- parseSpacesAndNewlines b4 ps4;
     do (v, ps6) <- cCompound c NormalExpr ps5;
-    Some (finish KMapPair 0 (push v b5) begin ps6, ps6)
-  else Some (finish KMapPair 0 b4 begin ps4, ps4).
+    Some (finish KMapPair 0 (push v b5) ps6, ps6)
+  else Some (finish KMapPair 0 b4 ps4, ps4).
 
 Close Scope Z_scope.
 End Bodies.
